@@ -5,10 +5,10 @@ from . import histories, projlab, seqcase
 from . import specs as S
 
 
-def run_upgrade(prop, desc, max_k=60, scope='run_sql'):
+def run_upgrade(prop, desc, max_k=60, scope='run_sql', with_rename=False):
     rng = seqcase.rng_for(prop, 'upgrade', desc['seed'], desc['i'])
     two = rng.random() < 0.3
-    h = histories.gen_upgrade(rng, two_apps=two)
+    h = histories.gen_upgrade(rng, two_apps=two, with_rename=with_rename)
     apps = ('app1', 'app2') if two else ('app1',)
     proj = projlab.Project()
     try:
